@@ -364,10 +364,10 @@ MUTANTS = [
     dict(id="C13-M1", file=_U, old="        if callable(self.fun):\n            return self.fun(**inp)\n        return self.fun\n\n    def apply_to_batch",
          new="        if callable(self.fun):\n            return self.fun(*inp.values())\n        return self.fun\n\n    def apply_to_batch", rule="R-C13-1", what="positional call"),
     dict(id="C13-M2", file=_U, old="            fun_eval = self.fun(**inp)", new="            fun_eval = self.fun(*inp.values())", rule="R-C13-1", what="positional call (domain)"),
-    dict(id="C13-M3", file=_U, old="        inp = {key: args[key] for key in self.args if key in args}\n        inp.update(\n            {key: self.defaults[key] for key in self.args if key not in args}\n        )\n        if not vectorize:",
-         new="        inp = {key: args[key] for key in self.args if key in args}\n        inp.update(\n            {key: self.defaults[key] for key in self.args if key in self.defaults}\n        )\n        if not vectorize:", rule="R-C13-2", what="defaults override given values"),
-    dict(id="C13-M4", file=_U, old="        inp = {key: args[key] for key in self.args if key in args}\n        inp.update(\n            {key: self.defaults[key] for key in self.args if key not in args}\n        )\n        return self.evaluate_function(device=device, **inp)",
-         new="        inp = {key: args[key] for key in args}\n        inp.update(\n            {key: self.defaults[key] for key in self.args if key not in args}\n        )\n        return self.evaluate_function(device=device, **inp)", rule="R-C13-2", what="undeclared names passed"),
+    dict(id="C13-M3", file=_U, old="        inp = {key: args[key] for key in self.args if key in args}\n        inp.update({key: self.defaults[key] for key in self.args if key not in args})\n        if not vectorize:",
+         new="        inp = {key: args[key] for key in self.args if key in args}\n        inp.update({key: self.defaults[key] for key in self.args if key in self.defaults})\n        if not vectorize:", rule="R-C13-2", what="defaults override given values"),
+    dict(id="C13-M4", file=_U, old="        inp = {key: args[key] for key in self.args if key in args}\n        inp.update({key: self.defaults[key] for key in self.args if key not in args})\n        return self.evaluate_function(device=device, **inp)",
+         new="        inp = {key: args[key] for key in args}\n        inp.update({key: self.defaults[key] for key in self.args if key not in args})\n        return self.evaluate_function(device=device, **inp)", rule="R-C13-2", what="undeclared names passed"),
     dict(id="C13-M5", file=_U, old="self.args[-i]: f_defaults[-i]", new="self.args[i - 1]: f_defaults[-i]", rule="R-C13-4", what="defaults aligned to the head"),
     dict(id="C13-M6", file=_U, old="                copy_self = copy.deepcopy(self)\n                copy_self.set_default(**args)\n                return copy_self",
          new="                self.set_default(**args)\n                return self", rule="R-C13-5", what="set_default on self"),
@@ -376,7 +376,7 @@ MUTANTS = [
     dict(id="C13-M9", file=_U, old="                copy_self = copy.deepcopy(self)\n", new="                copy_self = copy.copy(self)\n", rule="R-C13-5", what="shallow copy of self"),
 ]
 TWINS = [
-    dict(id="C13-T1", file=_U, old="        inp = {key: args[key] for key in self.args if key in args}\n        inp.update(\n            {key: self.defaults[key] for key in self.args if key not in args}\n        )\n        if not vectorize:",
+    dict(id="C13-T1", file=_U, old="        inp = {key: args[key] for key in self.args if key in args}\n        inp.update({key: self.defaults[key] for key in self.args if key not in args})\n        if not vectorize:",
          new="        given = {name: args[name] for name in self.args if name in args}\n        missing = {name: self.defaults[name] for name in self.args if not name in args}\n        inp = {**given, **missing}\n        if not vectorize:", what="dict merge instead of update, renamed"),
     dict(id="C13-T2", file=_U, old="range(len(f_defaults), 0, -1)", new="range(1, len(f_defaults) + 1)", what="ascending index range"),
 ]
